@@ -836,3 +836,68 @@ V('c11-subdirs-forward-files-too', 'C11', 'C11.R3', (DI, '''            if let D
                 DirEntry::Directory(id) | DirEntry::File(id, "") => f(id),
                 _ => (),
             }'''))
+
+# ---- C12
+V('c12-reintroduce-F6-remove', 'C12', 'C12.R1', (HW, '''                        notify::EventKind::Create(_)
+                        | notify::EventKind::Remove(_)
+                        | notify::EventKind::Modify(notify::event::ModifyKind::Name(_)) => {
+                            match path.parent() {
+                                Some(parent) => vec![&path, parent],
+                                None => vec![&*path],
+                            }
+                        }''', '''                        notify::EventKind::Create(_)
+                        | notify::EventKind::Modify(notify::event::ModifyKind::Name(_)) => {
+                            match path.parent() {
+                                Some(parent) => vec![&path, parent],
+                                None => vec![&*path],
+                            }
+                        }
+                        notify::EventKind::Remove(_) => match path.parent() {
+                            Some(parent) => vec![parent],
+                            None => vec![],
+                        },'''))
+V('c12-reintroduce-F6-rename', 'C12', 'C12.R1', (HW, '''                        | notify::EventKind::Modify(notify::event::ModifyKind::Name(_)) => {''', '''                        => {'''))
+V('c12-create-without-parent', 'C12', 'C12.R1', (HW, '''                                Some(parent) => vec![&path, parent],''', '''                                Some(_parent) => vec![&*path],'''))
+V('c12-access-emits', 'C12', 'C12.R1', (HW, '''                        notify::EventKind::Any | notify::EventKind::Modify(_) => vec![&*path],
+                        notify::EventKind::Access(_) | notify::EventKind::Other => return,''', '''                        notify::EventKind::Any | notify::EventKind::Modify(_) | notify::EventKind::Access(_) => vec![&*path],
+                        notify::EventKind::Other => return,'''))
+V('c12-reintroduce-O1', 'C12', 'C12.R6', (HW, '''    // The root directory itself has the empty id
+    if path == root {
+        return Some(OwnedDirEntry::Directory(id_builder.join()));
+    }
+''', ''''''))
+V('c12-unwrap-in-id_of_path', 'C12', 'C12.R2', (HW, '''            path::Component::Normal(s) => id_builder.push(s.to_str()?)?,
+            path::Component::ParentDir => id_builder.pop()?,
+            path::Component::CurDir => continue,
+            _ => return None,
+        }
+    }
+
+    // Build the id of the file.''', '''            path::Component::Normal(s) => id_builder.push(s.to_str().unwrap())?,
+            path::Component::ParentDir => id_builder.pop()?,
+            path::Component::CurDir => continue,
+            _ => return None,
+        }
+    }
+
+    // Build the id of the file.'''))
+V('c12-parentdir-skipped', 'C12', 'C12.R3', (HW, '''            path::Component::ParentDir => id_builder.pop()?,
+            path::Component::CurDir => continue,
+            _ => return None,
+        }
+    }
+
+    // Build the id of the file.''', '''            path::Component::ParentDir | path::Component::CurDir => continue,
+            _ => return None,
+        }
+    }
+
+    // Build the id of the file.'''))
+V('c12-dot-segments-accepted', 'C12', 'C12.R4', (U, '''        if s.contains('.') {
+            return None;
+        }
+''', '''        if s.starts_with('.') {
+            return None;
+        }
+'''))
+V('c12-kind-from-extension', 'C12', 'C12.R5', (HW, '''    let entry = if path.is_dir() {''', '''    let entry = if path.extension().is_none() {'''))
